@@ -50,6 +50,11 @@ func drainIter(it iterLike, withMeta bool) (docs []string, metas []string, err e
 	}
 	err = it.Err()
 	it.Close()
+	// the usual calling pattern is `defer iter.Close()` ... `iter.Err()`: an error reported before Close must
+	// still be reported after it (observed as "no error" if it is gone)
+	if err != nil && it.Err() == nil {
+		err = nil
+	}
 	return
 }
 
@@ -110,6 +115,9 @@ func readAllWith(o *out, id string, stream []byte, withMeta bool, expect [][]ele
 	}
 	err := it.Err()
 	it.Close()
+	if err != nil && it.Err() == nil {
+		err = nil // an error that Close makes disappear is an error that was not reported
+	}
 	o.printf("RC => %d %d\n", errFlag(err), n)
 	for _, l := range lines {
 		o.printf("%s\n", l)
